@@ -133,3 +133,9 @@ pub use convert::{F16ToF32, F32ToF16};
 
 // Utilities
 pub use extend_init::ExtendInit;
+
+/// Hooks for the external verification harness in `/verif`. Only compiled with
+/// `RUSTFLAGS="--cfg rten_verif"`; ordinary builds are unaffected.
+#[cfg(rten_verif)]
+#[doc(hidden)]
+pub mod verif;
